@@ -525,7 +525,7 @@ Section Pairing.
     length (s_objs st) <= length (s_objs (fst (lmtp_slots rs st acc))).
   Proof.
     induction rs as [|[a rid] rs IH]; intros st acc; [cbn; lia|].
-    cbn [lmtp_slots]. destruct (r_code (o_r (get_obj st rid))) as [|k c]; [cbn; lia|].
+    cbn [lmtp_slots]. destruct (r_code (o_r (get_obj st rid))) as [|k c]; [apply IH|].
     destruct (k =? 50)%N; [|apply IH].
     unfold new_slot. cbv beta iota zeta.
     eapply Nat.le_trans; [|apply IH]. cbn [s_objs set_queue set_objs].
@@ -543,7 +543,7 @@ Section Pairing.
     pose proof (cl_flush_len st) as H0.
     destruct (flush udigit uspace st) as [st0 [e|]]; cbn [fst] in *; [lia|].
     pose proof (cl_lmtp_slots_len (s_rcpttos st0) st0 []%list) as H1.
-    destruct (lmtp_slots (s_rcpttos st0) st0 []%list) as [st1 [ret|]]; cbn [fst] in *; [|lia].
+    destruct (lmtp_slots (s_rcpttos st0) st0 []%list) as [st1 ret]; cbn [fst] in *.
     match goal with |- context [pipelining ?x] => set (st2 := x) end.
     assert (H2 : length (s_objs st2) = length (s_objs st1)) by reflexivity.
     destruct (pipelining st2); [cbn [fst]; lia|].
@@ -899,7 +899,7 @@ Section Pairing.
 
   (* LMTP: which recipients get an end-of-data reply *)
   Definition accepted (rs : list (list N * nat)) : list (list N * nat) :=
-    filter (fun p => class2 (fst (scr (snd p)))) rs.
+    filter (fun p => good (snd p) && class2 (fst (scr (snd p)))) rs.
 
   Lemma cl_number_fst : forall l n, map fst (number n l) = l.
   Proof. induction l; intros; cbn; [reflexivity|]. f_equal. apply IHl. Qed.
@@ -912,29 +912,26 @@ Section Pairing.
   Lemma cl_lmtp_slots_gen : forall rs st acc f,
     Inv st f ->
     Forall (fun p => snd p < f /\ o_kind (obj_at st (snd p)) = KPlain) rs ->
-    exists st1 o,
-      lmtp_slots rs st acc = (st1, o) /\
-      Inv st1 f /\ length (s_objs st) <= length (s_objs st1) /\
-      s_lmtp st1 = s_lmtp st /\ s_exts st1 = s_exts st /\ s_rcpttos st1 = s_rcpttos st /\
-      ((o = Some (acc ++ number (length (s_objs st)) (map fst (accepted rs)))%list /\
-        length (s_objs st1) = length (s_objs st) + length (accepted rs) /\
-        Forall (fun p => good (snd p) = true) rs) \/
-       (o = None /\ has_bad)).
+    exists st1,
+      lmtp_slots rs st acc =
+        (st1, (acc ++ number (length (s_objs st)) (map fst (accepted rs)))%list) /\
+      Inv st1 f /\
+      length (s_objs st1) = length (s_objs st) + length (accepted rs) /\
+      s_lmtp st1 = s_lmtp st /\ s_exts st1 = s_exts st /\ s_rcpttos st1 = s_rcpttos st.
   Proof.
     induction rs as [|[a rid] rs IH]; intros st acc f I Hrs.
-    - exists st, (Some acc). cbn. rewrite app_nil_r, Nat.add_0_r. split; [reflexivity|].
-      split; [exact I|]. repeat (split; [first [reflexivity | lia]|]). left. auto.
+    - exists st. cbn. rewrite app_nil_r, Nat.add_0_r. auto 10.
     - inversion Hrs as [|? ? [Hrid Hkind] Hrs']; subst. cbn [snd] in *.
       cbn [lmtp_slots]. change (get_obj st rid) with (obj_at st rid).
       pose proof (I_filled _ _ I rid Hrid) as Hr. rewrite Hkind in Hr.
-      assert (Hrl : rid < length script) by (pose proof (I_fscript _ _ I); lia).
-      destruct (good rid) eqn:Eg.
+      unfold accepted. cbn [filter snd]. fold (accepted rs).
+      destruct (good rid) eqn:Eg; cbn [andb].
       + rewrite Hr. cbn [filled]. unfold raw_filled.
         rewrite cl_set_message_code. cbn [r_code].
         destruct (scr rid) as [c ls] eqn:Escr.
         assert (Hwf1 : wf_reply (c, ls) = true) by (rewrite <- Escr; exact Eg).
         destruct (cl_wf_reply_inv c ls Hwf1) as (_ & (d1 & d2 & d3 & -> & _) & _).
-        cbn [fst]. unfold accepted. cbn [filter snd]. rewrite Escr. cbn [fst class2].
+        cbn [fst class2].
         destruct (d1 =? 50)%N.
         * assert (Hkp : KPlain <> KHello) by discriminate.
           pose proof (cl_new_slot_inv SEND_DATA KPlain st f Hkp I) as I1.
@@ -947,23 +944,17 @@ Section Pairing.
           destruct Efr as (Ef1 & Ef2 & Ef3).
           assert (El : length (s_objs st1) = S (length (s_objs st))).
           { rewrite Eo, app_length. cbn. lia. }
-          destruct (IH st1 (acc ++ [(a, id)])%list f I1) as (st2 & o & Hsl & I2 & Hl2 & Hlm & Hex & Hrc & Hout).
+          destruct (IH st1 (acc ++ [(a, id)])%list f I1) as (st2 & Hsl & I2 & Hl2 & Hlm & Hex & Hrc).
           { eapply Forall_impl; [|exact Hrs']. intros p [H1 H2].
             rewrite (cl_obj_at_app_l st1 st _ (snd p) Eo); [auto|].
             pose proof (I_fle _ _ I). lia. }
-          exists st2, o. rewrite Hsl. split; [reflexivity|]. split; [exact I2|]. split; [lia|].
-          rewrite Hlm, Hex, Hrc. repeat (split; [assumption|]).
-          destruct Hout as [(-> & Hl3 & Hall)|(-> & Hb)]; [left|right; auto].
-          subst id. rewrite El. cbn [map fst number length]. rewrite <- app_assoc. cbn [app].
-          split; [reflexivity|]. split; [rewrite Hl3, El; fold (accepted rs); lia|].
-          constructor; [exact Eg|exact Hall].
-        * destruct (IH st acc f I Hrs') as (st2 & o & Hsl & I2 & Hl2 & Hlm & Hex & Hrc & Hout).
-          exists st2, o. split; [exact Hsl|]. split; [exact I2|]. repeat (split; [assumption|]).
-          destruct Hout as [(-> & Hl3 & Hall)|(-> & Hb)]; [left|right; auto].
-          fold (accepted rs). repeat split; try assumption. constructor; [exact Eg|exact Hall].
-      + rewrite Hr. cbn [unfilled r_code]. exists st, None. split; [reflexivity|]. split; [exact I|].
-        repeat (split; [first [reflexivity | lia]|]). right. split; [reflexivity|].
-        apply (cl_bad_has_bad rid); assumption.
+          exists st2. rewrite Hsl. subst id. rewrite El.
+          cbn [map fst number length]. rewrite <- app_assoc. cbn [app].
+          split; [reflexivity|]. split; [exact I2|]. split; [rewrite Hl2, El; lia|].
+          rewrite Hlm, Hex, Hrc. auto.
+        * apply IH; assumption.
+      + (* the recipient's RCPT reply was a BadReply: the object is empty, no slot *)
+        rewrite Hr. cbn [unfilled r_code]. apply IH; assumption.
   Qed.
 
   Lemma cl_lmtp_data_gen : forall w st f st' res,
@@ -973,9 +964,11 @@ Section Pairing.
     exists f', Inv st' f' /\ length (s_objs st) <= length (s_objs st') /\ s_lmtp st' = s_lmtp st /\
       ((res = RPairs (number (length (s_objs st)) (map fst (accepted (s_rcpttos st)))) /\
         length (s_objs st') = length (s_objs st) + length (accepted (s_rcpttos st)) /\
-        s_rcpttos st' = []%list /\ Forall (fun p => good (snd p) = true) (s_rcpttos st)) \/
-       (res = RExn XBadReply /\ has_bad /\ (s_rcpttos st' = s_rcpttos st \/ s_rcpttos st' = []%list)) \/
-       (res = RExn XAttr /\ has_bad /\ s_rcpttos st' = s_rcpttos st)).
+        s_rcpttos st' = []%list) \/
+       (res = RExn XBadReply /\ has_bad /\
+        ((s_rcpttos st' = s_rcpttos st /\ length (s_objs st') = length (s_objs st)) \/
+         (s_rcpttos st' = []%list /\
+          length (s_objs st') = length (s_objs st) + length (accepted (s_rcpttos st)))))).
   Proof.
     intros w st f st' res I H Hlen.
     pose proof (cl_lmtp_data_len w st) as Hmono. rewrite H in Hmono. cbn [fst] in Hmono.
@@ -984,19 +977,15 @@ Section Pairing.
     rewrite Hfl in H.
     destruct Hout0 as [(-> & -> & Hall0)|(-> & Hlt0 & Hb0)].
     2:{ inversion H; subst st' res. exists f0. split; [exact I0|]. split; [lia|]. split; [exact Hlm0|].
-        right. left. split; [reflexivity|]. split; [|left; exact Hrc0].
+        right. split; [reflexivity|]. split; [|left; auto].
         apply (cl_bad_has_bad (f0 - 1)); [pose proof (I_fscript _ _ I0); lia|exact Hb0]. }
     assert (Hrs : Forall (fun p => snd p < length (s_objs st) /\ o_kind (obj_at st0 (snd p)) = KPlain)
                          (s_rcpttos st0)).
     { pose proof (I_rcpt _ _ I0) as Ir. rewrite Hl0 in Ir.
       eapply Forall_impl; [|exact Ir]. intros p (H1 & H2 & _). auto. }
     destruct (cl_lmtp_slots_gen (s_rcpttos st0) st0 []%list _ I0 Hrs)
-      as (st1 & o & Hsl & I1 & Hl1 & Hlm1 & Hex1 & Hrc1 & Hout1).
-    rewrite Hsl in H. rewrite Hl0, Hrc0 in *.
-    destruct Hout1 as [(-> & Hl1' & Hall1)|(-> & Hb1)].
-    2:{ inversion H; subst st' res. exists (length (s_objs st)). split; [exact I1|]. split; [lia|].
-        split; [congruence|]. right. right. auto. }
-    cbn [app] in H.
+      as (st1 & Hsl & I1 & Hl1 & Hlm1 & Hex1 & Hrc1).
+    rewrite Hsl in H. rewrite Hl0, Hrc0 in *. cbn [app] in H.
     set (ret := number (length (s_objs st)) (map fst (accepted (s_rcpttos st)))) in *.
     apply cl_inv_clear_rcpttos in I1. apply (cl_buffered_send_inv w) in I1.
     set (st2 := buffered_send w (set_rcpttos st1 []%list)) in *.
@@ -1005,16 +994,16 @@ Section Pairing.
     destruct E2 as (El2 & Elm2 & Erc2).
     destruct (pipelining st2).
     - inversion H; subst st' res. exists (length (s_objs st)).
-      split; [exact I1|]. split; [lia|]. split; [congruence|]. left. rewrite El2, Hl1'. auto.
+      split; [exact I1|]. split; [lia|]. split; [congruence|]. left. rewrite El2, Hl1. auto.
     - pose proof (cl_flush_len st2) as Hfl2.
       destruct (cl_flush_inv st2 _ I1) as (st3 & e3 & f3 & Hfl3 & I3 & Hff3 & Hl3 & Hlm3 & Hex3 & Hrc3 & _ & Hout3).
       + destruct (flush udigit uspace st2) as [stx [ex|]]; inversion H; subst; cbn [fst] in Hfl2; lia.
       + rewrite Hfl3 in H.
         destruct Hout3 as [(-> & -> & _)|(-> & Hlt3 & Hb3)]; inversion H; subst st' res.
         * eexists. split; [exact I3|]. split; [lia|]. split; [congruence|]. left.
-          rewrite Hl3, Hrc3, El2, Hl1'. auto.
-        * exists f3. split; [exact I3|]. split; [lia|]. split; [congruence|]. right. left.
-          split; [reflexivity|]. split; [|right; congruence].
+          rewrite Hl3, Hrc3, El2, Hl1. auto.
+        * exists f3. split; [exact I3|]. split; [lia|]. split; [congruence|]. right.
+          split; [reflexivity|]. split; [|right; rewrite Hl3, Hrc3, El2, Hl1; auto].
           apply (cl_bad_has_bad (f3 - 1)); [pose proof (I_fscript _ _ I3); lia|exact Hb3].
   Qed.
 
@@ -1026,7 +1015,6 @@ Section Pairing.
     | RExn XEncode => n' = n
     | RExn XNotImpl => n' = n
     | RExn XBadReply => n <= n' /\ has_bad
-    | RExn XAttr => n <= n' /\ has_bad
     | RExn _ => False
     end.
 
@@ -1100,14 +1088,13 @@ Section Pairing.
                           s_lmtp st' = s_lmtp st /\ rc_step o st st' res).
     { intros w Hd. destruct (cl_lmtp_data_gen _ _ _ _ _ I Hd Hlen) as (f' & I1 & Hmono & Hlm & Hout).
       exists f'. split; [exact I1|]. unfold rc_step.
-      destruct Hout as [(-> & Hl1 & Hrc & _)|[(-> & Hb & Hrc)|(-> & Hb & Hrc)]]; cbn [res_gen].
+      destruct Hout as [(-> & Hl1 & Hrc)|(-> & Hb & Hrc)]; cbn [res_gen].
       - rewrite cl_number_snd, Hl1.
         assert (HL : length (number (length (s_objs st)) (map fst (accepted (s_rcpttos st)))) =
                 length (accepted (s_rcpttos st))).
         { rewrite <- (map_length fst (number _ _)), cl_number_fst, map_length. reflexivity. }
         rewrite HL, map_length. split; [auto|]. split; [exact Hlm|]. split; [auto|]. intros [X|X]; discriminate.
-      - split; [auto|]. split; [exact Hlm|]. split; [destruct Hrc; auto|]. intros [X|X]; discriminate.
-      - split; [auto|]. split; [exact Hlm|]. split; [auto|]. intros [X|X]; discriminate. }
+      - split; [auto|]. split; [exact Hlm|]. split; [destruct Hrc as [[? _]|[? _]]; auto|]. intros [X|X]; discriminate. }
     assert (Hkp : KPlain <> KHello) by discriminate.
     destruct o.
     - eapply CM'; [|exact H]. discriminate.
@@ -1298,7 +1285,7 @@ Section Pairing.
     step udigit uspace o st = (st', RExn e) ->
     length (s_objs st') <= length script ->
     (e = XEncode \/ e = XNotImpl) /\ st' = st \/
-    (e = XBadReply \/ e = XAttr) /\ (exists j, j < length script /\ wf_reply (nth j script dflt) = false).
+    e = XBadReply /\ (exists j, j < length script /\ wf_reply (nth j script dflt) = false).
   Proof.
     intros lmtp exts0 ops chunks st results o st' e Hc Hs Hrun Hstep Hlen.
     pose proof (cl_step_mono o st) as Hm. rewrite Hstep in Hm. cbn [fst] in Hm.
@@ -1311,7 +1298,42 @@ Section Pairing.
     - left. auto.
     - left. auto.
     - right. split; [auto|]. exact (proj2 Hres).
-    - right. split; [auto|]. exact (proj2 Hres).
+  Qed.
+
+  (* LmtpClient.send_data / send_empty_data after ANY history, whatever the script: one new
+     end-of-data slot per recipient of the transaction whose RCPT reply is a filled 2xx
+     (a recipient whose RCPT reply was a BadReply has an empty Reply and gets none), in the
+     order of the rcptto calls, as the consecutive new objects; it never raises
+     AttributeError - the only exception it can raise is the BadReply of an undecodable
+     reply one of its two flushes had to read. *)
+  Lemma cl_lmtp_pairing_gen : forall exts0 ops chunks st results o st' res,
+    Forall nonempty chunks -> (concat chunks = wire script ++ extra)%list ->
+    run udigit uspace ops (init true exts0 chunks) = (st, results) ->
+    (o = OSendEmpty \/ exists payload, o = OSendData payload) ->
+    step udigit uspace o st = (st', res) ->
+    length (s_objs st') <= length script ->
+    let n := length (s_objs st) in
+    let acc := filter (fun p => wf_reply (nth (snd p) script dflt) &&
+                                class2 (fst (nth (snd p) script dflt))) (s_rcpttos st) in
+    (res = RPairs (number n (map fst acc)) /\
+     length (s_objs st') = n + length acc /\ s_rcpttos st' = []%list) \/
+    (res = RExn XBadReply /\
+     ((s_rcpttos st' = s_rcpttos st /\ length (s_objs st') = n) \/
+      (s_rcpttos st' = []%list /\ length (s_objs st') = n + length acc))).
+  Proof.
+    intros exts0 ops chunks st results o st' res Hc Hs Hrun Ho Hstep Hlen n acc.
+    pose proof (cl_step_mono o st) as Hm. rewrite Hstep in Hm. cbn [fst] in Hm.
+    assert (Hlen0 : length (s_objs st) <= length script) by lia.
+    assert (Hs0 : StronglySorted lt (map snd (s_rcpttos (init true exts0 chunks)))) by constructor.
+    destruct (cl_run_gen ops _ 0 st results (cl_init_inv true exts0 chunks Hc Hs) Hs0 Hrun Hlen0)
+      as (f & I & _ & _ & _ & Hlm & _).
+    assert (Hd : exists w, lmtp_data udigit uspace w st = (st', res)).
+    { unfold step in Hstep. rewrite (I_dead _ _ I), Hlm in Hstep. cbn [init s_lmtp] in Hstep.
+      destruct Ho as [->|[payload ->]]; eauto. }
+    destruct Hd as [w Hd].
+    destruct (cl_lmtp_data_gen _ _ _ _ _ I Hd Hlen) as (f' & _ & _ & _ & Hout).
+    change (accepted (s_rcpttos st)) with acc in Hout. fold n in Hout.
+    destruct Hout as [H|(H1 & _ & H2)]; [left; exact H|right; auto].
   Qed.
 
   (* ---------------------------------------------------------------- *)
@@ -1323,6 +1345,15 @@ Section Pairing.
 
   Lemma cl_no_bad : has_bad -> False.
   Proof. intros (j & H1 & H2). rewrite (cl_all_good j H1) in H2. discriminate. Qed.
+
+  Lemma cl_accepted_good : forall rs,
+    Forall (fun p => snd p < length script) rs ->
+    accepted rs = filter (fun p => class2 (fst (scr (snd p)))) rs.
+  Proof.
+    induction rs as [|p rs IH]; intros H; [reflexivity|]. inversion H; subst.
+    unfold accepted in *. cbn [filter]. rewrite (cl_all_good (snd p)) by assumption. cbn [andb].
+    rewrite IH by assumption. reflexivity.
+  Qed.
 
   Definition res_ok (n n' : nat) (res : result) : Prop :=
     match res with
@@ -1369,8 +1400,7 @@ Section Pairing.
   Proof.
     intros w st f st' res I H Hlen.
     destruct (cl_lmtp_data_gen _ _ _ _ _ I H Hlen) as (f' & I1 & _ & Hlm & Hout).
-    exists f'. destruct Hout as [(-> & Hl & Hrc & _)|[(_ & Hb & _)|(_ & Hb & _)]];
-      [auto|destruct (cl_no_bad Hb)|destruct (cl_no_bad Hb)].
+    exists f'. destruct Hout as [(-> & Hl & Hrc)|(_ & Hb & _)]; [auto|destruct (cl_no_bad Hb)].
   Qed.
 
 
@@ -1507,6 +1537,10 @@ Section Pairing.
       destruct Ho as [->|[payload ->]]; eauto. }
     destruct Hd as [w Hd].
     destruct (cl_lmtp_data_inv _ _ _ _ _ I Hd Hlen) as (f' & Hres & _ & Hl & _ & Hrc).
+    assert (Eacc : accepted (s_rcpttos st) = acc).
+    { apply cl_accepted_good. pose proof (I_rcpt _ _ I) as Ir0.
+      eapply Forall_impl; [|exact Ir0]. intros p (Hp & _). lia. }
+    rewrite Eacc in Hres, Hl.
     split; [exact Hres|]. split; [exact Hl|]. split; [exact Hrc|]. split; [exact Hsort|].
     pose proof (I_rcpt _ _ I) as Ir. rewrite Forall_forall in *. intros p Hp.
     destruct (Ir p Hp) as (H1 & _ & H3). auto.
@@ -1671,24 +1705,22 @@ Example cl_example_bad_reply :
     [bs "220"; bs "250"; bs "250"; []; bs "250"; bs "354"; bs "250"; bs "221"].
 Proof. vm_compute. repeat split; reflexivity. Qed.
 
-(* The known finding behind C10_lmtp_unanswered_rcpt_refuted: LMTP with PIPELINING, the reply
-   to the second RCPT is undecodable; data() raises the BadReply; send_empty_data() then dies
-   with AttributeError on that recipient AFTER it has queued a slot for the first one: a slot
-   without a command (nothing was put in the send buffer), rcpttos not cleared. *)
+(* Hypotheses of C10_lmtp_data_never_fails_on_unanswered_rcpt on the case that used to be the
+   known finding c10:lmtp-data-after-bad-rcpt-reply: LMTP with PIPELINING, the reply to the
+   second RCPT is undecodable; data() raises the BadReply; send_empty_data() now returns the
+   pair for the first recipient only (object 5) and clears the recipient list. *)
 Definition ex_fscript : list sreply :=
   [(bs "250", [bs "lmtp"; bs "PIPELINING"]); (bs "250", [bs "ok"]); (bs "250", [bs "r1 ok"]);
    (bs "550", [[228%N]]); (bs "354", [bs "go"]); (bs "250", [bs "x"]); (bs "250", [bs "y"])].
 Definition ex_fops : list op :=
   [OLhlo (bs "client"); OMail (bs "a@b") None None; ORcpt (bs "r1"); ORcpt (bs "r2"); OData].
 
-Lemma cl_lmtp_unanswered_rcpt_witness :
+Example cl_example_lmtp_unanswered_rcpt :
   forallb script_ok ex_fscript = true /\
   let '(st, results) := run ex_udigit ex_uspace ex_fops (init true [] [wire ex_fscript]) in
   let '(st', res) := step ex_udigit ex_uspace OSendEmpty st in
   (length (s_objs st') <= length ex_fscript)%nat /\
-  res = RExn XAttr /\
-  s_queue st' = [5]%nat /\ o_cmd (nth 5 (s_objs st') dummy_obj) = SEND_DATA /\
-  s_sendbuf st' = [] /\ s_sent st' = s_sent st /\ s_rcpttos st' = s_rcpttos st /\ s_rcpttos st' <> [].
-Proof.
-  vm_compute. repeat split; try reflexivity; try (repeat constructor). intros H; discriminate H.
-Qed.
+  results = [RObj 0; RObj 1; RObj 2; RObj 3; RExn XBadReply]%nat /\
+  s_rcpttos st = [(bs "r1", 2); (bs "r2", 3)]%nat /\
+  res = RPairs [(bs "r1", 5)]%nat /\ s_queue st' = [5]%nat /\ s_rcpttos st' = [].
+Proof. vm_compute. repeat split; try reflexivity; repeat constructor. Qed.
